@@ -136,7 +136,23 @@ def whole_query_cases(backend):
         ("select-two-lambdas", f"ds.Select(lambda e: {c}.Select(lambda j: j.pt(), lambda j: j.eta()))"),
         ("where-non-lambda", f"ds.Select(lambda e: {c}.Where(1).Count())"),
         ("string-arithmetic", f"ds.Select(lambda e: {c}.Select(lambda j: j.pt() + 'a'))"),
+        ("kwargs-math-function", f"ds.Select(lambda e: {c}.Select(lambda j: sin(j.pt(), y=1)))"),
+        ("kwargs-math-function-only", f"ds.Select(lambda e: {c}.Select(lambda j: sin(x=j.pt())))"),
+        ("kwargs-builtin-function", f"ds.Select(lambda e: {c}.Select(lambda j: DeltaR(j.eta(), j.phi(), 0.5, 0.25, extra=1)))"),
+        ("kwargs-range", "ds.Select(lambda e: Range(0, 2, step=1))"),
+        ("kwargs-first", f"ds.Select(lambda e: {c}.First(default=1).pt())"),
+        ("kwargs-count", f"ds.Select(lambda e: {c}.Count(x=1))"),
+        ("kwargs-where", f"ds.Select(lambda e: {c}.Where(lambda j: j.pt() > 1, flag=True).Count())"),
+        ("kwargs-toplevel-select", f"ds.Select(lambda e: {c}.Count(), extra=1)"),
+        ("kwargs-result-ttree", f"ResultTTree(ds.Select(lambda e: {c}.Count()), ['a'], 'tree', 'file.root', extra=1)"),
+        ("kwargs-metadata", f"MetaData(ds, {{'metadata_type': 'add_job_script', 'name': 'n', 'script': ['x'], 'depends_on': []}}, extra=1).Select(lambda e: {c}.Count())"),
+        ("kwargs-lambda-body-call", f"ds.Select(lambda e: {c}.Select(lambda j: abs(j.pt(), extra=1)))"),
+        ("kwargs-starstar", f"ds.Select(lambda e: {c}.Select(lambda j: j.pt(**{{'a': 1}})))"),
     ]
+    if backend == "atlas":
+        cases.append(("kwargs-plugin-method", f"ds.Select(lambda e: {c}.Select(lambda j: j.getAttributeFloat('w', extra=1)))"))
+        cases.append(("kwargs-collection-call", "ds.Select(lambda e: e.Jets('A', something=1).Count())"))
+        cases.append(("kwargs-collection-call-bank", "ds.Select(lambda e: e.Jets(bank='A').Count())"))
     # required key missing for each metadata kind
     kinds = {
         "add_method_type_info": {"type_string": "xAOD::Jet", "method_name": "pt", "return_type": "int"},
